@@ -134,6 +134,13 @@ def tucker_case(draw, orders=(2, 3, 4), kinds=xi.KINDS_ALL, inits=("svd", "rando
         c["ranks"] = [draw(st.integers(1, min(3, shape[m]))) for m in modes]
     else:
         c["ranks"] = [_rank(draw, s) for s in shape]
+    if draw(st.integers(0, 3)) == 0:
+        # seed-independence pass: an *uncompressed* mode (rank == mode size, also for sides 4-5) in a quarter of the
+        # cases, preferably together with a user init (the class of C07-m2: shortcuts for full-rank modes)
+        j = draw(st.integers(0, len(c["ranks"]) - 1))
+        c["ranks"][j] = shape[c["modes"][j]] if partial else shape[j]
+        if "user" in inits and draw(st.booleans()):
+            c["init"] = dict(c["init"], kind="user")
     if opts:
         c.update(opts(draw, c))
     return c
@@ -166,7 +173,9 @@ def parafac2_case(draw, group, iters=ITERS, tols=(1e-14, 1e-2), nn_choices=([0],
     rank = draw(st.integers(1, hi))
     if group == "exactfit":
         rank = min(hi, max(rank, X["r"]))
-    init = draw(xi.init_spec(("random", "svd", "user"), weights=("none", "ones", "pos", "pos")))
+    # seed-independence pass: user inits are half of the cases and three quarters of them carry non-unit weights
+    # (the class that C07-r2m3 needs: a weighted user init, in particular with normalize_factors=False)
+    init = draw(xi.init_spec(("random", "svd", "user", "user"), weights=("none", "pos", "pos", "pos")))
     if init["kind"] == "user":
         init["form"] = draw(st.sampled_from(["pf2", "cp"]))      # Parafac2Tensor triple / CP pair (B split by QR)
     else:
